@@ -396,9 +396,11 @@ var exception_catch(var args) {
     return e->obj;
   }
   
-  /* Check Exception against Arguments */
-  foreach(arg in args) {
-    if (eq(arg, e->obj)) {
+  /* Check Exception against Arguments. By position: a filter may name the 
+  ** same kind twice, and a Tuple finds the successor of an item by identity */
+  size_t nargs = len(args);
+  for (size_t i = 0; i < nargs; i++) {
+    if (eq(get(args, $I(i)), e->obj)) {
       e->active = false;
       return e->obj;
     }
